@@ -61,6 +61,7 @@ def run(idx: ProgramIndex, rep: Report, tier: str):
     likelihood_copies(idx, rep)
     fantasy_noise_forwarded(idx, rep)
     symmetric_expansion(idx, rep, fns)
+    fantasy_noise_kept(idx, rep)
     rep.rule("C04-6", "the caches carried into the fantasy strategy do not depend on detach_test_caches (branches differ by .detach() only)")
     from .c03 import detach_neutral
     detach_neutral(idx, rep, rule="C04-6", only_functions={"get_fantasy_strategy", "get_fantasy_model"}, floor=1)
@@ -740,3 +741,51 @@ def symmetric_expansion(idx: ProgramIndex, rep: Report, fns):
                     "both operands are expanded to a common batch shape on every path" if ok else
                     "; ".join(sorted(set(rec["one_sided"]))) + ": the other operand is assumed to have the larger batch shape already - a batch model receiving a shared observation (or a fantasy model receiving one) raises", {})
     rep.floor("C04-10", "batch-aligned old ++ new concatenations", n, 1)
+
+
+# ---- C04-11 --------------------------------------------------------------------------------------------------------
+def fantasy_noise_kept(idx: ProgramIndex, rep: Report):
+    """The incremental update in get_fantasy_strategy evaluates the fantasy likelihood on the new points *with* the caller's `noise=`
+    (C04-9), and every noise model documents 'if a noise kwarg is provided, this noise is used directly'.  Whatever the fantasy model
+    later recomputes from its stored likelihood (mean cache, exact covariance path) uses the noise that the *fantasy likelihood* holds.
+    The two agree only if get_fantasy_likelihood carries the keyword into the copy: for a likelihood class whose noise model honours
+    `noise=`, the resolved get_fantasy_likelihood must consult its kwargs."""
+    rep.rule("C04-11", "a likelihood whose noise model honours a `noise=` keyword carries that noise into its fantasy likelihood (get_fantasy_likelihood consults kwargs)")
+    try:
+        base = idx.find_class("_GaussianLikelihoodBase")
+    except AnalysisError:
+        return
+    n = 0
+    for cls in sorted([base] + list(idx.subclasses(base)), key=lambda c: c.qualname):
+        init = cls.methods.get("__init__")
+        if init is None:
+            continue
+        noise_classes = []
+        for c in calls_in(init.node):
+            nm = (chain(c.func) or "").split(".")[-1]
+            if nm.endswith("Noise"):
+                try:
+                    noise_classes.append(idx.find_class(nm))
+                except AnalysisError:
+                    pass
+        for N in noise_classes:
+            fwd = N.lookup("forward")
+            if fwd is None:
+                continue
+            honours = any(isinstance(x, ast.Compare) and isinstance(x.left, ast.Constant) and x.left.value == "noise" for x in ast.walk(fwd.node)) or \
+                ("noise" in fwd.params and any(isinstance(x, ast.Compare) and isinstance(x.left, ast.Name) and x.left.id == "noise" for x in ast.walk(fwd.node)))
+            if not honours:
+                continue
+            n += 1
+            gfl = cls.lookup("get_fantasy_likelihood")
+            kw = gfl.node.args.kwarg.arg if gfl is not None and gfl.node.args.kwarg else None
+            consults = gfl is not None and kw is not None and any(
+                (isinstance(x, ast.Subscript) and isinstance(x.value, ast.Name) and x.value.id == kw) or
+                (isinstance(x, ast.Call) and isinstance(x.func, ast.Attribute) and x.func.attr in ("get", "pop") and isinstance(x.func.value, ast.Name) and x.func.value.id == kw) or
+                (isinstance(x, ast.Compare) and any(isinstance(c_, ast.Name) and c_.id == kw for c_ in x.comparators))
+                for x in ast.walk(gfl.node))
+            rep.add("C04-11", "%s:%s[%s] -> get_fantasy_likelihood" % (cls.module.name, cls.qualname, N.name), (gfl or init).where, consults,
+                    "the fantasy likelihood is built from the noise keyword" if consults else
+                    "%s.forward uses a `noise=` keyword directly, so get_fantasy_strategy conditions the new points with the caller's noise, but %s.get_fantasy_likelihood ignores its keywords (%s): everything the fantasy model recomputes from its stored likelihood uses the old noise - the fantasy posterior is that of no single GP and changes with fast_pred_var" % (
+                        N.name, cls.qualname, "inherited `deepcopy(self)`" if gfl is None or gfl.cls is not cls else "own implementation"), {})
+    rep.floor("C04-11", "likelihood classes whose noise model honours noise=", n, 2)
